@@ -56,6 +56,7 @@ def main():
         return ('unknown', None)
 
     results = []
+    forced = []     # (field, a, b): canonical values whose Montgomery forms are the limb vectors of a solver counterexample
 
     def record(name, ok, detail, replay_info=None):
         results.append((name, ok, detail, replay_info))
@@ -119,6 +120,12 @@ def main():
                     res['cong'] = check(s, z3.Or(Ov == want, Ov == want - M, Ov == want + M), op, '')
                     res['canon'] = check(s, z3.And(Ov < M, Ov >= 0), op, '')
                 res['stats'] = (len(im.eqs), im.lemmas)
+                # a counterexample is a pair of Montgomery-domain limb vectors: keep it for the replay
+                for k in ('cong', 'canon'):
+                    if isinstance(res.get(k), tuple) and res[k][0] == 'cex':
+                        mdl = res[k][1]
+                        val = lambda L: sum((mdl.eval(x.t, model_completion=True).as_long() if not isinstance(x.t, int) else x.t) << (64 * i) for i, x in enumerate(L))
+                        res.setdefault('wit', []).append((val(A), val(B)))
             eng.explore(run)
             ck.absorb(eng)
             name = '%s.%s' % (fname, op)
@@ -130,6 +137,9 @@ def main():
                 bad = [k for k in ('cong', 'canon') if res.get(k) is not True]
                 kind = 'cex' if any(isinstance(res.get(k), tuple) and res[k][0] == 'cex' for k in bad) else 'unknown'
                 record(name, kind, 'claims %s not proved (%s)' % (bad, kind), (fname, op))
+                for av, bv in res.get('wit', []):
+                    Rinv = pow(R, -1, M)
+                    forced.append((fname, av % M * Rinv % M, bv % M * Rinv % M))
 
     # ------------------------------------------------------------ bit-vector obligations: selection, byte conversion, decode checks
     eng = new_engine(prog, timeout_ms=60000)
@@ -263,12 +273,16 @@ def main():
                 return v
     rows = []
     for fname, pre, M, T in FIELDS:
-        for _ in range(24):
+        mine = [(a, b) for f, a, b in forced if f == fname]
+        mine += [(b, a) for a, b in mine]
+        for _ in range(24 + len(mine)):
             a, b = rnd_elem(M), rnd_elem(M)
             if _ == 0:
                 a, b = M - 1, M - 1
             if _ == 1:
                 a, b = 0, M - 1
+            if _ >= 24:
+                a, b = mine[_ - 24]
             rows.append('{%d, %s, %s, %s, %s, %s, %s, %s},' % (0 if fname == 'field' else 1, go_bytes(list(a.to_bytes(32, 'big'))), go_bytes(list(b.to_bytes(32, 'big'))),
                         go_bytes(list(((a * b) % M).to_bytes(32, 'big'))), go_bytes(list(((a + b) % M).to_bytes(32, 'big'))), go_bytes(list(((a - b) % M).to_bytes(32, 'big'))),
                         go_bytes(list((pow(a, -1, M) if a else 0).to_bytes(32, 'big'))), go_bytes(list(((a * a) % M).to_bytes(32, 'big')))))
